@@ -1,6 +1,7 @@
 package rules
 
 import (
+	"strings"
 	"go/token"
 
 	"golang.org/x/tools/go/ssa"
@@ -175,6 +176,81 @@ func c03(x *Ctx) {
 			c.Decide(ok, rMax, BaseName(s.Fn)+"/limit-argument", x.Pos(s.Instr), "limit argument is Traces.MaxExpiredTraces", "the per-tick limit passed to the buffer is not the configured MaxExpiredTraces")
 		}
 		c.Min(rMax, 2)
+
+		// ---- clause 1b: deadlines are compared with the time of the tick, not a time taken before waiting ----
+		const rFresh = "C03.fresh-now"
+		isBlocking := func(in ssa.Instruction) bool {
+			switch y := in.(type) {
+			case *ssa.Select:
+				return y.Blocking
+			case *ssa.UnOp:
+				return y.Op == token.ARROW
+			}
+			return false
+		}
+		var checkNow func(fn *ssa.Function, use ssa.Instruction, v ssa.Value, key string, depth int)
+		checkNow = func(fn *ssa.Function, use ssa.Instruction, v ssa.Value, key string, depth int) {
+			for _, lf := range leaves(v, nil) {
+				switch y := lf.(type) {
+				case *ssa.Call:
+					n := eng.CalleeName(y)
+					if !strings.HasSuffix(n, ".Now") {
+						c.Undecided(rFresh, key, x.Pos(use), "the time compared with the deadlines comes from "+n+", which the rule does not know")
+						continue
+					}
+					c.Examined++
+					r := eng.Explore(eng.Query{Fn: fn, Start: y, Classify: func(in ssa.Instruction, _ eng.Facts) eng.Event {
+						if in == ssa.Instruction(y) {
+							return eng.EvKill // taken afresh
+						}
+						if in == use || isBlocking(in) {
+							return eng.EvSink
+						}
+						return eng.EvNone
+					}})
+					stale := false
+					for _, h := range r.Hits {
+						if h.Instr == use && h.Before > 0 {
+							stale = true
+						}
+					}
+					c.Decide(!stale, rFresh, key, x.Pos(use), "the clock is read after the wait that the tick ends",
+						"the time against which deadlines are compared is read at "+x.Pos(y)+", before the goroutine blocks waiting for the tick: a trace whose deadline falls inside the wait is not seen as expired at that tick and is decided one tick late")
+				case *ssa.Parameter:
+					if depth > 3 {
+						c.Undecided(rFresh, key, x.Pos(use), "time parameter passed through more than three calls")
+						continue
+					}
+					idx := -1
+					for i, q := range fn.Params {
+						if q == y {
+							idx = i
+						}
+					}
+					for _, e := range x.Callers(fn) {
+						if e.Site == nil || idx < 0 {
+							continue
+						}
+						cc := e.Site.Common()
+						args := cc.Args
+						if cc.IsInvoke() {
+							args = append([]ssa.Value{cc.Value}, args...)
+						}
+						if idx < len(args) {
+							checkNow(e.Caller.Func, e.Site, args[idx], key+"←"+BaseName(e.Caller.Func), depth+1)
+						}
+					}
+				default:
+					c.Undecided(rFresh, key, x.Pos(use), "the time compared with the deadlines has a source the rule does not know: "+lf.String())
+				}
+			}
+		}
+		for _, s := range eng.CallSites(x.PkgFuncs("collect"), func(n string, _ ssa.CallInstruction) bool { return n == nTakeExpired }) {
+			if args := eng.CallArgs(s.Instr.(ssa.CallInstruction)); len(args) >= 1 {
+				checkNow(s.Fn, s.Instr, args[0], BaseName(s.Fn)+"/TakeExpiredTraces", 0)
+			}
+		}
+		c.Min(rFresh, 1)
 	}
 	c.Min(rExp, 2)
 
